@@ -343,6 +343,10 @@ static char *_parsestr(qlisttbl_t *tbl, const char *str) {
 
     bool loop;
     char *value = strdup(str);
+    // references whose expansion brought a new "${" into the string; each of
+    // them is expanded only once per string, see below.
+    char **expanded = NULL;
+    int numexpanded = 0;
     do {
         loop = false;
 
@@ -429,9 +433,53 @@ static char *_parsestr(qlisttbl_t *tbl, const char *str) {
                 continue;
             }
 
+            // values can also refer to each other through pieces of
+            // references ("${b}}" and "${a", or "{a}$" next to "{a}"), which
+            // no single value shows. an expansion that brings a new "${" into
+            // the string - inside the value or where it meets its neighbours -
+            // is made only once per reference, so such a circle is left as it
+            // is instead of being expanded forever. every other expansion
+            // takes a "${" away, so the loop ends.
+            size_t newlen = strlen(newstr);
+            bool newref = (strstr(newstr, "${") != NULL
+                    || (newlen > 0 && newstr[0] == _VAR_OPEN
+                        && newstr[newlen - 1] == _VAR));
+            char *occ;
+            for (occ = value; newref == false && newlen > 0
+                    && (occ = strstr(occ, varstr)) != NULL; occ++) {
+                if ((newstr[0] == _VAR_OPEN && occ > value
+                        && *(occ - 1) == _VAR)
+                    || (newstr[newlen - 1] == _VAR
+                        && *(occ + varlen + 3) == _VAR_OPEN)) {
+                    newref = true;
+                }
+            }
+            if (newref == true) {
+                int i;
+                for (i = 0; i < numexpanded; i++) {
+                    if (!strcmp(expanded[i], varstr)) break;
+                }
+                char **tmp = NULL;
+                if (i == numexpanded) {
+                    tmp = (char **) realloc(expanded,
+                            sizeof(char *) * (numexpanded + 1));
+                }
+                if (tmp == NULL) {  // expanded before (or out of memory)
+                    free(newstr);
+                    free(varstr);
+                    s = e;
+                    continue;
+                }
+                expanded = tmp;
+            }
+
             s = qstrreplace("sn", value, varstr, newstr);
             free(newstr);
-            free(varstr);
+            if (newref == true) {
+                expanded[numexpanded++] = varstr;
+            } else {
+                free(varstr);
+            }
             free(value);
             value = s;
 
@@ -439,6 +487,11 @@ static char *_parsestr(qlisttbl_t *tbl, const char *str) {
             break;
         }
     } while (loop == true);
+
+    while (numexpanded > 0) {
+        free(expanded[--numexpanded]);
+    }
+    free(expanded);
 
     return value;
 }
